@@ -23,7 +23,9 @@
 (* nothing (set-same, add of a present element); in the cycle of an        *)
 (* invalidation only valid = FALSE is asserted for the invalidated         *)
 (* position, its ancestors may or may not count it as a modification, and  *)
-(* last-modified-time is constrained only while valid; within one cycle    *)
+(* last-modified-time is constrained only while valid; invalidating a      *)
+(* bundle / fixed list invalidates every position below it, and it becomes *)
+(* valid again only through a later write below it; within one cycle       *)
 (* erasing a dictionary key and creating it again continues the old child  *)
 (* (the property fixes no meaning for that sequence; the delta must still  *)
 (* explain the value).                                                     *)
@@ -52,8 +54,8 @@ Fresh(sh) ==
     CASE sh.k = "TS"  -> [ok |-> FALSE, v |-> 0, w |-> 0, inv |-> 0]
       [] sh.k = "TSS" -> [ok |-> FALSE, v |-> {}, w |-> 0, inv |-> 0]
       [] sh.k = "TSW" -> [ok |-> FALSE, q |-> <<>>, w |-> 0, inv |-> 0]
-      [] sh.k = "TSD" -> [ok |-> FALSE, ch |-> EmptyFn, grave |-> EmptyFn, w |-> 0, soft |-> 0]
-      [] OTHER        -> [ch |-> [i \in 1..NCh(sh) |-> Fresh(ChSh(sh, i))], w |-> 0, soft |-> 0]
+      [] sh.k = "TSD" -> [ok |-> FALSE, ch |-> EmptyFn, grave |-> EmptyFn, pub |-> {}, w |-> 0, soft |-> 0]
+      [] OTHER        -> [ok |-> FALSE, ch |-> [i \in 1..NCh(sh) |-> Fresh(ChSh(sh, i))], w |-> 0, soft |-> 0, inv |-> 0]
 
 RECURSIVE ValOf(_, _)
 ValOf(sh, m) ==
@@ -76,13 +78,22 @@ NewCycle(sh, m) ==
       [] sh.k = "TSD" -> [m EXCEPT !.grave = EmptyFn, !.ch = [x \in DOMAIN m.ch |-> NewCycle(sh.el, m.ch[x])]]
       [] OTHER        -> [m EXCEPT !.ch = [i \in 1..NCh(sh) |-> NewCycle(ChSh(sh, i), m.ch[i])]]
 
+(* invalidate(): the position and its statically indexed descendants lose their value (a position without a value is
+   left alone; dictionaries and sets are leaves of the static structure) *)
+RECURSIVE Kill(_, _, _)
+Kill(sh, st, t) ==
+    IF ~st.ok THEN st
+    ELSE IF sh.k = "TSD" THEN st
+    ELSE IF IsLeaf(sh) THEN [st EXCEPT !.ok = FALSE, !.inv = t]
+    ELSE [st EXCEPT !.ok = FALSE, !.inv = t, !.ch = [i \in 1..NCh(sh) |-> Kill(ChSh(sh, i), st.ch[i], t)]]
+
 (* one operation at the addressed position: result [st, wr (a write happened here/below), sf (an invalidation)] *)
 Leaf(sh, st, op, t) ==
     LET a == IF Len(op.a) > 0 THEN op.a[1] ELSE 0
         W(s) == [st |-> s, wr |-> TRUE, sf |-> FALSE]
     IN
     CASE op.op = "set"   -> W([st EXCEPT !.ok = TRUE, !.v = a, !.w = t])
-      [] op.op = "inv"   -> IF st.ok THEN [st |-> [st EXCEPT !.ok = FALSE, !.inv = t], wr |-> FALSE, sf |-> TRUE]
+      [] op.op = "inv"   -> IF st.ok THEN [st |-> Kill(sh, st, t), wr |-> FALSE, sf |-> TRUE]
                             ELSE [st |-> st, wr |-> FALSE, sf |-> FALSE]
       [] op.op = "push"  -> W([st EXCEPT !.ok = TRUE, !.q = Append(@, a), !.w = t])
       [] op.op = "add"   -> W([st EXCEPT !.ok = TRUE, !.v = @ \cup {a}, !.w = t])
@@ -90,14 +101,15 @@ Leaf(sh, st, op, t) ==
       [] op.op = "clr" /\ sh.k = "TSS" -> W([st EXCEPT !.ok = TRUE, !.v = {}, !.w = t])
       [] op.op = "touch" -> W([st EXCEPT !.ok = TRUE, !.w = t])
       [] op.op = "clr" /\ sh.k = "TSD" ->
-             W([st EXCEPT !.ok = TRUE, !.w = t, !.ch = EmptyFn,
+             W([st EXCEPT !.ok = TRUE, !.w = t, !.ch = EmptyFn, !.pub = {},
                           !.grave = [x \in DOMAIN st.grave \cup DOMAIN st.ch |-> IF x \in DOMAIN st.ch THEN st.ch[x] ELSE st.grave[x]]])
       [] op.op = "del"   -> IF a \in DOMAIN st.ch
-                            THEN W([st EXCEPT !.ok = TRUE, !.w = t, !.ch = Drop(@, a), !.grave = Put(@, a, st.ch[a])])
+                            THEN W([st EXCEPT !.ok = TRUE, !.w = t, !.ch = Drop(@, a), !.grave = Put(@, a, st.ch[a]), !.pub = @ \ {a}])
                             ELSE W([st EXCEPT !.ok = TRUE, !.w = t])
       [] op.op = "new"   -> IF a \in DOMAIN st.ch THEN [st |-> st, wr |-> FALSE, sf |-> FALSE]
-                            ELSE W([st EXCEPT !.ok = TRUE, !.w = t, !.grave = Drop(@, a),
-                                              !.ch = Put(@, a, IF a \in DOMAIN st.grave THEN st.grave[a] ELSE Fresh(sh.el))])
+                            ELSE LET c == IF a \in DOMAIN st.grave THEN st.grave[a] ELSE Fresh(sh.el)
+                                 IN  W([st EXCEPT !.ok = TRUE, !.w = t, !.grave = Drop(@, a), !.ch = Put(@, a, c),
+                                                  !.pub = IF HasValue(sh.el, ValOf(sh.el, c)) THEN @ \cup {a} ELSE @])
 
 RECURSIVE ApplyAt(_, _, _, _, _)
 ApplyAt(sh, st, path, op, t) ==
@@ -109,10 +121,11 @@ ApplyAt(sh, st, path, op, t) ==
                   r    == ApplyAt(sh.el, c0, Tail(path), op, t)
                   wr   == r.wr \/ ~live
               IN  [st |-> [st EXCEPT !.ch = Put(@, p, r.st), !.grave = Drop(@, p), !.ok = @ \/ wr,
+                                     !.pub = IF HasValue(sh.el, ValOf(sh.el, r.st)) THEN @ \cup {p} ELSE @,
                                      !.w = IF wr THEN t ELSE @, !.soft = IF r.sf THEN t ELSE @],
                    wr |-> wr, sf |-> r.sf]
          ELSE LET r == ApplyAt(ChSh(sh, p + 1), st.ch[p + 1], Tail(path), op, t)
-              IN  [st |-> [st EXCEPT !.ch[p + 1] = r.st, !.w = IF r.wr THEN t ELSE @, !.soft = IF r.sf THEN t ELSE @],
+              IN  [st |-> [st EXCEPT !.ch[p + 1] = r.st, !.ok = @ \/ r.wr, !.w = IF r.wr THEN t ELSE @, !.soft = IF r.sf THEN t ELSE @],
                    wr |-> r.wr, sf |-> r.sf]
 
 RECURSIVE RunOps(_, _, _, _, _)
@@ -124,6 +137,11 @@ RunOps(sh, st, ops, i, t) ==
 (* what a reader must see at one position; returns the set of broken       *)
 (* clauses, each tagged with reader side, depth and kind                   *)
 (***************************************************************************)
+(* in the cycle of an invalidation the flags of the invalidated position and of its ancestors are not constrained *)
+FreeAt(sh, cur, now) == IF IsLeaf(sh) THEN cur.inv = now
+                        ELSE IF sh.k = "TSD" THEN cur.soft = now
+                        ELSE cur.inv = now \/ cur.soft = now
+
 Tag(c, side, depth, sh) == c \o "@" \o side \o (IF depth = 0 THEN ".root." ELSE ".child.") \o sh.k
 
 RECURSIVE Cmp(_, _, _, _, _, _, _, _)
@@ -131,9 +149,9 @@ Cmp(sh, o, pre, cur, act, now, side, depth) ==
     LET T(c)   == Tag(c, side, depth, sh)
         fixed  == sh.k \in {"TSL", "TSB"}
         Em     == act /\ cur.w = now
-        free   == act /\ (IF IsLeaf(sh) THEN cur.inv = now ELSE cur.soft = now)
-        Eok    == IF fixed THEN cur.w > 0 ELSE cur.ok
-        okFree == fixed /\ cur.w = 0 /\ cur.soft > 0
+        free   == act /\ FreeAt(sh, cur, now)
+        Eok    == cur.ok
+        okFree == FALSE
         lmts   == {cur.w} \cup (IF ~IsLeaf(sh) /\ cur.soft > cur.w THEN {cur.soft} ELSE {})
         flags  ==
             If(~free /\ o.m = 1 /\ ~Em, {T("C04.modified_true_without_write")})
@@ -172,33 +190,36 @@ Cmp(sh, o, pre, cur, act, now, side, depth) ==
             LET ks  == ToSet(o.ks)  a == ToSet(o.a)  r == ToSet(o.r)  mk == ToSet(o.mk)
                 f   == PairsFn(o.ch)
                 pubO == {x \in ks : HasValue(sh.el, ObsVal(sh.el, f[x]))}
-                pubP == {x \in DOMAIN pre.ch : HasValue(sh.el, ValOf(sh.el, pre.ch[x]))}
-                coh == SetCoherence(pubP, pubO, a, r)
+                \* membership for added / removed: a key belongs to the dictionary from its first value until it is erased
+                \* (a child that is invalidated stays a member: it is neither added nor removed)
+                coh == IF free THEN "" ELSE SetCoherence(pre.pub, cur.pub, a, r)
                 cm  == \E x \in ks : f[x].m = 1
                 both == ks \cap DOMAIN cur.ch
             IN  UNION {Cmp(sh.el, f[x], IF x \in DOMAIN pre.ch THEN pre.ch[x] ELSE Fresh(sh.el), cur.ch[x], act, now, side, depth + 1) : x \in both}
                 \cup If(coh # "", {T(coh)})
                 \cup If(ks # DOMAIN cur.ch, {T("C05.keys_are_not_the_net_effect_of_the_mutations")})
                 \cup If(cm /\ o.m = 0, {T("C04.parent_not_modified_with_child")})
-                \cup If(mk # {x \in pubO : f[x].m = 1}, {T("C04.modified_items_disagree_with_child_flags")})
-                \cup If(~Em /\ (a \cup r \cup mk) # {}, {T("C04.delta_readable_after_its_cycle")})
+                \cup If(~free /\ mk # {x \in pubO : f[x].m = 1}, {T("C04.modified_items_disagree_with_child_flags")})
+                \cup If(~Em /\ ~free /\ (a \cup r \cup mk) # {}, {T("C04.delta_readable_after_its_cycle")})
 
 (* delta surfaces of the root (delta_value on both sides, capture_delta on the consumer side) against the algebra *)
 RootDelta(sh, o, dj, pre, cur, act, now, what) ==
     LET Em == act /\ cur.w = now
-        soft == IF IsLeaf(sh) THEN cur.inv = now ELSE cur.soft = now
+        soft == FreeAt(sh, cur, now)
     IN  IF ~Em \/ soft \/ dj = <<>> THEN {}
         ELSE LET d  == FromJ(sh, dj[1])
                  pv == ValOf(sh, pre)
                  ex == Capture(sh, pv, ValOf(sh, cur), WOf(sh, cur, now))
+                 \* a removed key whose child had been invalidated before carries no value change
+                 dt == IF sh.k = "TSD" THEN [d EXCEPT !.r = @ \cap DOMAIN pv.ch] ELSE d
              IN  If(~SameV(sh, Apply(sh, pv, d), ObsVal(sh, o)), {"C05.value_is_not_previous_plus_delta@" \o what})
-                 \cup If(NormD(sh, d) # NormD(sh, ex), {"C05.delta_is_not_the_net_effect_of_the_mutations@" \o what})
+                 \cup If(NormD(sh, dt) # NormD(sh, ex), {"C05.delta_is_not_the_net_effect_of_the_mutations@" \o what})
 
 (* consumer against producer in the same cycle *)
 RECURSIVE CmpPW(_, _, _, _, _, _)
 CmpPW(sh, p, w, cur, now, depth) ==
     LET T(c) == "C04.consumer_disagrees_with_producer@" \o c \o (IF depth = 0 THEN ".root." ELSE ".child.") \o sh.k
-        free == IF IsLeaf(sh) THEN cur.inv = now ELSE cur.soft = now
+        free == FreeAt(sh, cur, now)
         base == If(~free /\ p.m # w.m, {T("modified")})
                 \cup If(p.ok # w.ok, {T("valid")})
                 \cup If(~free /\ p.ok = 1 /\ w.ok = 1 /\ p.lmt # w.lmt, {T("last_modified_time")})
@@ -218,7 +239,7 @@ CmpPW(sh, p, w, cur, now, depth) ==
 (* events                                                                  *)
 (***************************************************************************)
 Shape == Traces[tid].prog.shape
-RootFree(cur, act, now) == act /\ (IF IsLeaf(Shape) THEN cur.inv = now ELSE cur.soft = now)
+RootFree(cur, act, now) == act /\ FreeAt(Shape, cur, now)
 
 InitS == [t |-> 0, pre |-> Fresh(Shape), cur |-> Fresh(Shape), w |-> <<>>, wt |-> 0, ended |-> FALSE]
 
